@@ -528,6 +528,11 @@ class Interp:
                 sb = self.prog.body(sp)
                 if sb is not None and not sb.get("ty", "").startswith("once_cell::") and sb["body"].get("k") == "Lit":
                     return self.x_Lit(sb["body"], env, fr)       # plain `static N: u32 = 47`
+                if sb is not None and re.fullmatch(r"[ui](8|16|32|64|128|size)|bool", sb.get("ty", "") or "") and "mutability: Mut" not in str(sb.get("dk", "")):
+                    # an immutable scalar static with a constant initialiser expression (`static N: u32 = Fq::TWO_ADICITY`)
+                    r = self.expr(sb["body"], {"$pc": env["$pc"]}, fr)
+                    if r is not None and Tm.is_lit(r[0]):
+                        return (r[0], env)
                 return (mk("static", sp), env)
             if dk in ("Fn", "AssocFn"):
                 return (mk("fnref", self.register_callee(c)), env)
@@ -990,6 +995,8 @@ class Interp:
         marks = (len(o.effects), len(o.panics), len(o.unmodelled), len(o.calls), len(fr.rets))
         cur = dict(env)
         ok = False
+        if limit > UNROLL_MAX and self.has_inner_loop(e["body"]) and not self.plain_integer_code(e["body"]):
+            limit = UNROLL_MAX      # a loop nest over non-integer state is summarised (one iteration's state transformer), not executed
         for _ in range(limit):
             fr.loops.append({"brk": [], "cont": []})
             try:
@@ -1056,6 +1063,15 @@ class Interp:
                 fr.out.effects.append((pc_, "loop_return", (v_,), {"sp": e.get("sp"), "fn": fr.path}))
             return (self.assemble(bvals), env)
         return (UNIT, env)
+
+    def has_inner_loop(self, node):
+        if isinstance(node, dict):
+            if node.get("k") == "Loop" or (node.get("k") == "Match" and str(node.get("src", "")).startswith("ForLoop")):
+                return True
+            return any(self.has_inner_loop(v) for v in node.values())
+        if isinstance(node, list):
+            return any(self.has_inner_loop(v) for v in node)
+        return False
 
     def plain_integer_code(self, node):
         """no calls or overloaded operators other than core integer / conversion / slice / array primitives"""
@@ -1322,7 +1338,9 @@ class Interp:
             return (self.assemble(flows), env)
         if fv.op == "fnref":
             c = self.closures[fv.args[0]]
-            return self.do_call(c, args, [None] * len(args), e, env, fr)
+            # a call through a function value `op(&mut out, &a)`: the argument expressions (and so the places an `&mut` argument names) are the call's own
+            ax = e.get("args") if isinstance(e, dict) and e.get("k") == "Call" and len(e.get("args") or []) == len(args) else None
+            return self.do_call(c, args, ax or [None] * len(args), e, env, fr)
         if fv.op == "ctor":
             r = {"res": "Def", "dk": fv.args[1], "callee": {"path": fv.args[0]}}
             return (self.ctor(r, args, e, env, fr), env)
